@@ -255,8 +255,14 @@ func runDiffCommand() {
 
 	var comparisons gedcom.IndividualComparisons
 
+	// Compare closes the notifier before it returns, so waiting for the
+	// notifier to be closed does not guarantee that the comparisons have been
+	// assigned yet.
+	comparisonsDone := make(chan struct{})
+
 	go func() {
 		comparisons = leftIndividuals.Compare(rightIndividuals, compareOptions)
+		close(comparisonsDone)
 	}()
 
 	if optionProgress {
@@ -276,6 +282,8 @@ func runDiffCommand() {
 		for range compareOptions.Notifier {
 		}
 	}
+
+	<-comparisonsDone
 
 	diffProgress := make(chan gedcom.Progress)
 
